@@ -431,15 +431,22 @@ class _Argon2Common(  # type: ignore[misc]
         )
         if keyid:
             raise NotImplementedError("argon2 'keyid' parameter not supported")
+        try:
+            salt = b64s_decode(salt) if salt else None
+            data = b64s_decode(data) if data else None
+            digest = b64s_decode(digest) if digest else None
+        except TypeError:
+            # b64s_decode() reports foreign characters with TypeError
+            raise uh.exc.MalformedHashError(cls) from None
         return cls(
             type=type.decode("ascii"),
             version=int(version) if version else 0x10,
             memory_cost=int(memory_cost),
             rounds=int(time_cost),
             parallelism=int(parallelism),
-            salt=b64s_decode(salt) if salt else None,
-            data=b64s_decode(data) if data else None,
-            checksum=b64s_decode(digest) if digest else None,
+            salt=salt,
+            data=data,
+            checksum=digest,
         )
 
     def to_string(self):
